@@ -83,17 +83,18 @@ public:
                                          {{1.0, 1.0, 1.0}, newvars},
                                          1.0 ) );
       auto bNt = GetMC().ComputeBoundsAndType(con.GetBody());
-      double cmpEps = GetMC().ComparisonEps( bNt.get_result_type() );
       {
         GetMC().AddConstraint(IndicatorConstraint< AlgCon<-1> >(
                                 newvars[0], 1,
                               { con.GetBody(),
-                                con.rhs() - cmpEps }));
+                                GetMC().StrictRhs(bNt.get_result_type(),
+                                                  con.rhs(), -1) }));
       }
       GetMC().AddConstraint(IndicatorConstraint< AlgCon<1> >(
                               newvars[1], 1,
                             { con.GetBody(),
-                              con.rhs() + cmpEps }));
+                              GetMC().StrictRhs(bNt.get_result_type(),
+                                                con.rhs(), 1) }));
     } // else, skip
   }
 
